@@ -151,7 +151,14 @@ def run_battery(prop, mod, base_keys):
             shutil.rmtree(scratch, ignore_errors=True)
             os.makedirs(scratch_root, exist_ok=True)
             subprocess.run(["rsync", "-a", "--delete", "--exclude", "target", "--exclude", ".git", extract.REPO + "/", scratch + "/"], check=True)
-            r = subprocess.run(["patch", "-p1", "--fuzz=3", "-s", "-i", os.path.join(sd, "patch.diff")], cwd=scratch, stdout=subprocess.PIPE, stderr=subprocess.STDOUT, text=True)
+            # patch_current.diff = the same change rebased by hand onto a tree that a later `fix:` commit moved under it
+            pf = os.path.join(sd, "patch_current.diff")
+            if not os.path.exists(pf):
+                pf = os.path.join(sd, "patch.diff")
+            r = subprocess.run(["patch", "-p1", "--fuzz=3", "-s", "-i", pf], cwd=scratch, stdout=subprocess.PIPE, stderr=subprocess.STDOUT, text=True)
+            if r.returncode != 0 and pf.endswith("patch_current.diff"):
+                subprocess.run(["rsync", "-a", "--delete", "--exclude", "target", "--exclude", ".git", extract.REPO + "/", scratch + "/"], check=True)
+                r = subprocess.run(["patch", "-p1", "--fuzz=3", "-s", "-i", os.path.join(sd, "patch.diff")], cwd=scratch, stdout=subprocess.PIPE, stderr=subprocess.STDOUT, text=True)
             if r.returncode != 0:
                 out["skipped"].append({"seed": name, "why": "patch no longer applies to the current tree: " + r.stdout.strip()[-160:]})
                 continue
